@@ -24,7 +24,7 @@ import z3
 
 from . import core
 from .core import Unsupported
-from .values import (SxInt, SxBool, SxBytes, SxStr, SxChar, Numeral, is_sym, any_sym, mkbool, has_sym, eq_term,
+from .values import (SxInt, SxBool, SxBytes, SxStr, SxChar, Numeral, WordItem, is_sym, any_sym, mkbool, has_sym, eq_term,
                      z3bool, sym_ite, concretize_small, _mkstr, _mkbytes, _char_in, _items,
                      HEXLOW, HEXUP, str_of)
 
@@ -475,7 +475,8 @@ def sx_fromhex(h):
         h = str_of(h)
         its = h.items
         # zero-padded numeral -> to_bytes
-        if its and all(i == "0" for i in its[:-1]) and isinstance(its[-1], Numeral) and its[-1].base == 16:
+        if its and isinstance(its[-1], Numeral) and its[-1].base == 16 and \
+                all(isinstance(i, str) and i == "0" for i in its[:-1]):
             num = its[-1]
             n = len(its) - 1 + num.digits()
             if n % 2:
@@ -484,15 +485,27 @@ def sx_fromhex(h):
         its = list(h._resolve())
         out = []
         pend = None
+        pend_org = None
         for ch in its:
             if pend is None and bool(_char_in(ch, " \t\n\r\x0b\x0c")):
                 continue
             if isinstance(ch, str):
+                pend_org = None
                 d = HEXLOW.find(ch.lower())
                 if d < 0:
                     raise ValueError("non-hexadecimal number found in fromhex() arg")
             elif ch.alphabet in (HEXLOW, HEXUP):
                 d = ch.idx
+                if pend is None and ch.org is not None and ch.org[1] == "hi":
+                    pend_org = ch.org[0]
+                elif pend is not None and pend_org is not None and ch.org is not None and ch.org[1] == "lo" \
+                        and ch.org[0] is pend_org:
+                    out.append(pend_org)       # both digits of one byte of bytes.hex(): the byte itself
+                    pend = None
+                    pend_org = None
+                    continue
+                else:
+                    pend_org = None
             else:
                 if not bool(_char_in(ch, HEXLOW + "ABCDEF")):
                     raise ValueError("non-hexadecimal number found in fromhex() arg")
@@ -989,6 +1002,8 @@ def __sx_slice__(a, b, c):
 
 
 def __sx_getitem__(o, k):
+    if hasattr(type(o), "__sx_getitem__"):
+        return o.__sx_getitem__(k)
     if isinstance(o, dict) and (_SIDE or has_sym(k)) and _dict_sym(o, k):
         return _dict_get(o, k, strict=True)
     if isinstance(k, SxInt):
